@@ -18,6 +18,13 @@ RULE = ("A case is one instant + one state; the check walks through *all* ordere
         "JPL shards Moon, Sun, MarsBarycenter, SolarSystemBarycenter. Reference facets draw dates "
         "evenly over 1973-2017.")
 ASSUMPTIONS = [
+    "inverse facet: the six numbers of a state are handed over as list / tuple / float64 / float32 / python-int / "
+    "int64 containers (the caller's array must stay untouched and unshared), the state may be a clone (.copy(), "
+    "pickle, copy.copy, copy.deepcopy - the original must stay untouched), the target frame is named by object, by "
+    "name or through copy(same=template), the state is held in cartesian / spherical / cylindrical form while its "
+    "frame changes (element forms: forms_across_bodies, also between Earth-centred frames); 30 % of the reference "
+    "dates fall 5-20 min from 0h UTC on the turn of a year, a leap-second day or its eve, or the first / last "
+    "days of the EOP tables",
     "forms_across_bodies: the reference is the library's own conversion of the *cartesian* state (decided by the "
     "other facets; closed form for the fixed-offset frames); conics with |e-1| < 1e-3, e > 20, |H| > 8 or within "
     "0.01 rad of the equator about either body are outside; tolerance 3e-10 x conditioning + 3e-9 relative",
@@ -1064,15 +1071,16 @@ FORMS = ["cartesian", "spherical", "cylindrical", "keplerian", "keplerian_eccent
          "keplerian_circular", "keplerian_mean_circular", "equinoctial", "tle"]
 HYP_FORMS = [f for f in FORMS if f not in ("tle", "keplerian_mean_circular")]
 MU_FREE = ("cartesian", "spherical", "cylindrical")
-BODY_RADIUS = {"Moon": 1.7374e6, "Mars": 3.3962e6, "MarsBarycenter": 3.3962e6, "Venus": 6.0518e6,
+BODY_RADIUS = {"TOD": 6.3781e6, "GCRF": 6.3781e6, "Moon": 1.7374e6, "Mars": 3.3962e6, "MarsBarycenter": 3.3962e6, "Venus": 6.0518e6,
                "Mercury": 2.4397e6, "Earth": 6.3781e6, "EME2000": 6.3781e6, "MOD": 6.3781e6, "XM": 1.7374e6}
 # (frame around the smaller body, frame around the body it moves about): a bound or mildly hyperbolic
 # orbit drawn around the first is a reasonable conic around the second as well
 BODY_PAIRS_JPL = [("Moon", "EME2000"), ("Moon", "Earth"), ("Moon", "MOD"), ("Mars", "Sun"),
                   ("Mars", "SolarSystemBarycenter"), ("MarsBarycenter", "Sun"), ("Venus", "Sun"),
                   ("Mercury", "SolarSystemBarycenter"), ("Earth", "Sun"), ("EME2000", "SolarSystemBarycenter"),
-                  ("EME2000", "MOD")]
-BODY_PAIRS_OWN = [("XM", "EME2000"), ("XM", "MOD"), ("EME2000", "XS"), ("MOD", "XS"), ("EME2000", "MOD")]
+                  ("EME2000", "MOD"), ("TOD", "G50")]
+BODY_PAIRS_OWN = [("XM", "EME2000"), ("XM", "MOD"), ("EME2000", "XS"), ("MOD", "XS"), ("EME2000", "MOD"),
+                  ("GCRF", "TEME"), ("TOD", "G50")]
 _own = {}
 
 
